@@ -27,6 +27,7 @@ EXPLANATION = (
     "shape[1] or size per ndim class. "
     "Not decided: dtype promotion results, numpy broadcasting, bit-for-bit values.")
 EXPLANATION += (" Added after the audit wave: C01.6 in the branch where only the other operand carries noise, the noise handed to the constructor takes the result's shape (it mentions the receiver's arrays or was broadcast to a shape that does), because the length guard admits a one-sample operand; C01.8 an index that is a numpy integer (an Integral that is not an int) takes the integer branch of optical_signal.__getitem__; C01.7 accepts either outcome for a one-sample RECEIVER against a longer operand (the statement does not settle it).")
+EXPLANATION += (" Second audit wave: C01.6 the shape clause also covers __mul__/__rmul__; C01.4 for a text or array input without dtype one alternative of the stored signal is an astype to a numeric type (0/1 text and booleans must not be stored as bool arrays: numpy's bool + is OR).")
 TRUSTED = ["numpy.array copies by default; basic slicing returns views; arithmetic allocates", "utils.str2array returns a fresh array", "CPython ast"]
 
 OPS = ["__add__", "__radd__", "__sub__", "__rsub__", "__mul__", "__rmul__"]
@@ -118,6 +119,12 @@ def rule_operators(ctx):
                     ctx.check("C01.3", ok_np, m, node, f"{case} result n_pol = {npv!r}"[:200], "the operands' polarisation layout (given or derived from the array)",
                               f"the result's polarisation count is {npv!r}: not the operand's layout nor derived from the array (an argument landed in the n_pol slot of the constructor), so slicing the result misreads its layout"[:400])
                 if meth in ("__mul__", "__rmul__"):
+                    if sn == "none" and on == "notnone" and isinstance(out.fields.get("noise"), Form):
+                        nz = out.fields.get("noise")
+                        shaped = _mentions_self(nz) or any(v == nz and _mentions_self(shp) for v, shp in it.broadcasts)
+                        ctx.check("C01.6", shaped, m, node, f"{case}: noise of the result takes the result's shape", "noise mentions the receiver's arrays or is broadcast to a shape that does",
+                                  f"the result's noise is {nz!r} as it stands in the other operand: a one-sample operand with noise (accepted by the length guard) gives a signal of "
+                                  "the receiver's length with a one-sample noise, which the constructor rejects with ValueError instead of broadcasting"[:500])
                     sig = out.fields.get("signal")
                     ctx.check("C01.5", isinstance(sig, Form) and sig == S("self.signal") * S("other.signal"), m, node, f"{case} signal = {sig!r}", "product of the signals", "signal part is not self.signal*other.signal")
                     continue
@@ -252,6 +259,43 @@ def _stored_layout(it, cls):
     if len(sig) != 1 or len(noi) != 1:
         return None
     return sig[0][3], noi[0][3], sig[0][1]
+
+
+def rule_numeric_storage(ctx):
+    """a signal container holds numbers: 0/1 text (str2array reads it as a bool bit pattern) and boolean arrays are promoted to a
+    numeric dtype before they are stored - numpy's bool arithmetic is logical (+ is OR, - raises), so the sum / difference laws
+    of the statement fail on such operands. Decided on the value stored for `signal` when no dtype is given: one alternative of
+    it must be an astype to a numeric type object."""
+    from ..absint import ClassRef
+    pkg = ctx.pkg
+    numeric = lambda c: isinstance(c, ClassRef) and c.name.split(".")[-1] not in ("bool", "bool_", "str", "object") and not c.name.startswith("?")
+
+    def promoted(v, depth=0):
+        if not isinstance(v, Form) or depth > 12:
+            return False
+        for a in v.atoms():
+            if a[0] == "fn" and a[1] == "astype" and len(a[2]) == 2 and numeric(a[2][1]):
+                return True
+        return False
+    for cls in CLASSES:
+        m = pkg.find_method("typing", cls, "__init__")
+        for kind in ("text", "array"):
+            it = Interp(pkg, self_class=cls, assumptions={"signal": ("inst", "str") if kind == "text" else ("notinst", "str"), "noise": None, "dtype": None, "signal.ndim": 1})
+            it.keep_astype = True
+            it.run(m)
+            r = _stored_layout(it, cls)
+            case = f"{cls}(signal given as {kind}, no dtype): boolean data stored as numbers"
+            if r is None or not isinstance(r[0], Form):
+                ctx.unknown("C01.4", m, m.node, case, "stored signal not identified")
+                continue
+            ctx.check("C01.4", promoted(r[0]), m, r[2], case, "an astype to a numeric type on the path to the stored array",
+                      f"the array stored for `signal` is {short(r[0], 140)}: " + ("0/1 text parsed by str2array is a bool array" if kind == "text" else "a list or array of booleans stays bool") +
+                      " and is stored as it is - '1 1 0' + '1 0 1' is then the logical OR, '-' raises TypeError and signal+noise never reaches 2")
+
+
+def short(v, n):
+    r = repr(v)
+    return r if len(r) <= n else r[:n] + "..."
 
 
 def rule_ctor_symmetry(ctx):
@@ -455,6 +499,7 @@ def run(ctx):
     rule_operators(ctx)
     rule_length_guard(ctx)
     rule_ctor_symmetry(ctx)
+    rule_numeric_storage(ctx)
     rule_slicing(ctx)
     ctx.require_min("C01.1", 20)
     ctx.require_min("C01.2", 18)
